@@ -17,7 +17,17 @@ if sel:
     quals = [q for q in quals if any(q.endswith(x) for x in sel)]
 results = [run.verify_function(q) for q in quals]
 vcs = [vc for r in results for vc in r.vcs]
-run.discharge(vcs, [], "quick")
+covers = [c for r in results for c in r.covers]
+cover_res = run.discharge(vcs, covers, "quick")
+# how many path covers are refuted (infeasible paths) per function on the unchanged tree: more than that later means that a path
+# which could be executed has become contradictory (vacuity guard in pyvc.check)
+refuted = {}
+for r in results:
+    refuted[r.qual] = sum(1 for k, v in cover_res.items() if k.startswith(r.qual + "::cover::path") and v[0] == "unsat")
+cp = os.path.join(V, "baseline", "covers.json")
+basec = json.load(open(cp)) if (sel and os.path.exists(cp)) else {}
+basec.update(refuted)
+json.dump(dict(sorted(basec.items())), open(cp, "w"), indent=0)
 pth = os.path.join(V, "baseline", "obligations.json")
 os.makedirs(os.path.dirname(pth), exist_ok=True)
 base = json.load(open(pth)) if (sel and os.path.exists(pth)) else {}
